@@ -128,7 +128,8 @@ func StateNeededForProtoEvent(protoEvent *ProtoEvent) (result StateNeeded, err e
 	// Extract the 'content' object from the event if it is m.room.member as we need to know 'membership'
 	var content *membershipContent
 	if protoEvent.Type == spec.MRoomMember {
-		if err = json.Unmarshal(protoEvent.Content, &content); err != nil {
+		// member names are exact, as in NewMemberContentFromEvent
+		if err = json.Unmarshal(exactMembersOnly(protoEvent.Content, content), &content); err != nil {
 			err = errorf("unparseable member event content: %s", err.Error())
 			return
 		}
@@ -146,7 +147,8 @@ func StateNeededForAuth(events []PDU) (result StateNeeded) {
 		// Extract the 'content' object from the event if it is m.room.member as we need to know 'membership'
 		var content *membershipContent
 		if event.Type() == spec.MRoomMember {
-			_ = json.Unmarshal(event.Content(), &content)
+			// member names are exact, as in NewMemberContentFromEvent
+			_ = json.Unmarshal(exactMembersOnly(event.Content(), content), &content)
 		}
 		// Ignore errors when accumulating state needed.
 		// The event will be rejected when the actual checks encounter the same error.
@@ -1115,7 +1117,8 @@ func (m *membershipAllower) membershipAllowed(event PDU) error { // nolint: gocy
 	var err error
 	if event.Type() == spec.MRoomMember {
 		mapping := membershipContent{}
-		if err := json.Unmarshal(event.Content(), &mapping); err != nil {
+		// member names are exact, as in NewMemberContentFromEvent
+		if err := json.Unmarshal(exactMembersOnly(event.Content(), &mapping), &mapping); err != nil {
 			return err
 		}
 		// Only pseudo-ID rooms map the sender through the event: elsewhere the mapping is
